@@ -51,7 +51,7 @@ typedef struct { int8_t owner; struct { parsec_data_coherency_t st; uint32_t ver
 static long T_seq, T_steps, T_nontrivial, T_transfers, T_writes, T_reads, T_owner_reads, T_inflight, T_double, T_known_class;
 static long T_by_mode[3], T_src_hist[MAXD + 1];
 #define NKEYS 32
-static struct { char key[96]; long n; } K[NKEYS]; static int nk;
+static struct { char key[96]; long n; int printed; } K[NKEYS]; static int nk;
 
 static char seqtxt[MAXL * 24 + 64]; static int seqlen_txt;
 static int cur_depth; static int cur_steps[MAXL * 2][3];
@@ -74,8 +74,10 @@ static void describe_state(char *buf, size_t n) {
 
 static void violate(const char *key, const char *fmt, ...) {
     int i; for (i = 0; i < nk; i++) if (!strcmp(K[i].key, key)) break;
-    if (i == nk) { if (nk == NKEYS) return; snprintf(K[nk].key, sizeof K[nk].key, "%s", key); K[nk].n = 0; nk++; }
-    if (K[i].n++ > 0) return;     /* one witness per key */
+    if (i == nk) { if (nk == NKEYS) return; snprintf(K[nk].key, sizeof K[nk].key, "%s", key); K[nk].n = 0; K[nk].printed = 0; nk++; }
+    K[i].n++;
+    if (K[i].printed) return;     /* one witness per key */
+    K[i].printed = 1;
     char buf[300], sq[400], stt[200]; va_list ap; va_start(ap, fmt); vsnprintf(buf, sizeof buf, fmt, ap); va_end(ap);
     describe_seq(sq, sizeof sq); describe_state(stt, sizeof stt);
     vf_violation(key, "%s | devices=%d sequence: %s| state after the call: %s", buf, ND, sq, stt);
@@ -170,7 +172,7 @@ static void restore(const snap_t *s) { D->owner_device = s->owner; for (int d = 
 /* ---- enumerator ---- */
 static const int MODES[4][2] = {{R_, 0}, {W_, 1}, {R_ | W_, 0}, {R_ | W_, 1}};
 static int enum_len; static long nt_transfers_path, nt_writes_path;
-static int nsamples = 3;
+static int nsamples = 3; static uint64_t sample_mod = 1000;
 
 static void emit_sample(void) {
     char sq[400], stt[200]; describe_seq(sq, sizeof sq); describe_state(stt, sizeof stt);
@@ -188,7 +190,10 @@ static void dfs(int depth, int first_must_write) {
         T_seq++;
         if (depth + 1 >= 3 && nt_transfers_path > 0 && nt_writes_path > 0) {
             T_nontrivial++;
-            if (nsamples > 0 && depth + 1 == enum_len && (T_nontrivial % 9973) == 7) { nsamples--; emit_sample(); }
+            if (nsamples > 0 && depth + 1 == enum_len) {   /* a few leaves spread over the tree, chosen by a hash of the sequence */
+                uint64_t hh = 7; for (int i = 0; i < cur_depth; i++) hh = vf_mix(hh, cur_steps[i][0] * 64 + cur_steps[i][1] * 2 + cur_steps[i][2]);
+                if (hh % sample_mod == 1) { nsamples--; emit_sample(); }
+            }
         }
         if ((T_seq & 0xfffff) == 0) VF_TICK();
         if (depth + 1 < enum_len) dfs(depth + 1, 0);
@@ -198,9 +203,17 @@ static void dfs(int depth, int first_must_write) {
 }
 
 /* enumerate only the subtree below a prefix (work split between processes): prefix index in base (4*ND) digits */
+static void zero_counters(void) {
+    T_seq = T_steps = T_nontrivial = T_transfers = T_writes = T_reads = T_owner_reads = T_inflight = T_double = T_known_class = 0;
+    memset(T_by_mode, 0, sizeof T_by_mode); memset(T_src_hist, 0, sizeof T_src_hist);
+    for (int i = 0; i < nk; i++) K[i].n = 0;   /* the (short) first witness of each key stays printed, the hits are recounted */
+}
 static void run_enum(int len, int variant, long part, long nparts) {
-    enum_len = len;
     int br = 4 * ND;
+    /* pre-pass over the short sequences so that the witness printed for a key is a short one; its counts are discarded */
+    if (len > 4) { int ns = nsamples; nsamples = 0; enum_len = 4; reset_state(variant); nt_transfers_path = nt_writes_path = 0; dfs(0, variant == 1); nsamples = ns; zero_counters(); }
+    enum_len = len;
+    sample_mod = 1; for (int i = 0; i < len; i++) sample_mod *= (uint64_t)br; sample_mod = sample_mod / (nparts > 1 ? 6 * (uint64_t)nparts : 6) + 1;
     if (nparts <= 1 || len < 3) { reset_state(variant); nt_transfers_path = nt_writes_path = 0; if (part == 0) dfs(0, variant == 1); return; }
     /* split on the first two steps: br*br prefixes dealt round-robin; sequences of length 1 and 2 are counted by part 0 */
     long idx = 0;
